@@ -157,8 +157,11 @@ def solve_lp(
         linprog_kwargs["A_eq"] = lp_data.A_eq
         linprog_kwargs["b_eq"] = lp_data.b_eq
 
-    if lp_data.bounds:
-        linprog_kwargs["bounds"] = lp_data.bounds
+    # Bounds may have been edited since the LP data was cached: read them
+    # from the variables on every solve.
+    bounds = LinearProgramExtractor().extract_bounds(variables)
+    if bounds:
+        linprog_kwargs["bounds"] = bounds
 
     # Merge user kwargs (allow overriding)
     linprog_kwargs.update(kwargs)
